@@ -1,6 +1,7 @@
 """Check driver for C15."""
 import copy
 import json
+import random
 import os
 import sys
 import time
@@ -185,6 +186,15 @@ def value_sweep_cases(part=0, parts=1):
                 dec = ("json", "dict")[n // parts % 2]
                 cfg = ("default", "default", "strictconv", "lenient")[n // parts % 4]
                 cases.append({"seed": -2, "decoder": dec, "doc": name, "faults": [{"k": "value_set", "idx": i, "idx2": 0, "val": j}], "chunks": None, "cfg": cfg})
+            # ... and a seeded dozen of the non-text JSON values (null, numbers, arrays, objects, generic-element shapes)
+            order = list(range(len(c15.JUNK_JSON)))
+            random.Random(zlib.crc32(f"{name}:{i}:json".encode())).shuffle(order)
+            for j in order[:12]:
+                n += 1
+                if n % parts != part:
+                    continue
+                dec = ("json", "dict")[n // parts % 2]
+                cases.append({"seed": -2, "decoder": dec, "doc": name, "faults": [{"k": "value_set", "idx": i, "idx2": 0, "val": j, "junk": "json"}], "chunks": None, "cfg": ("default", "lenient")[n // parts % 2]})
     return cases
 
 
